@@ -19,6 +19,8 @@ DOC = {
  "C10.R1": "map writers: name map mutated only by register (entry -> VacantEntry::insert) and unregister (remove); same for the pid map in cluster builds; no other mutating DashMap method on these statics",
  "C10.R2": "register is called only by the cell constructors; unregister only by ActorCell::set_status (elected cleanup) and the constructors' rollback",
  "C10.R3": "a name clash (register's `?` Break edge) leaves the constructor without reaching unregister/pid registration and before any guard exists",
+ "C10.R5": "where_is / where_is_pid read the map once and do not filter the answer by actor status (or only by a recognised test that admits Unstarted..Draining)",
+ "C10.R6": "name ownership: constructors that store a name without registering it (remote proxies) exist only for non-local ids, and the exit cleanup unregisters the name only for local cells (or only the entry that is this cell)",
  "C10.R4": "= C06.R5 + C05.R1: unregistration is elected once by the RMW's previous value and happens before Stopped is stored / waiters are released",
 }
 
@@ -146,6 +148,90 @@ def r4(run, db):
     c05.r1(run, db)
 
 
+LIVE = ["Unstarted", "Starting", "Running", "Upgrading", "Draining"]
+
+
+def r5(run, db):
+    """lookups hand out whatever the map holds: the answer may not depend on the actor's status in a way that hides a live holder
+    (the entry exists from construction until the exit cleanup removes it, so the map alone is the specification)"""
+    n = 0
+    for nm in ("ractor::registry::where_is", "ractor::registry::pid_registry::where_is_pid"):
+        f = db.fn(nm)
+        if f is None:
+            if "pid" in nm and not db.fn("ractor::registry::pid_registry::register_pid"):
+                continue
+            run.fail("anchor:" + nm, nm + " not found")
+            continue
+        n += 1
+        fam = db.family(f.id)
+        run.saw(sum(len(g.blocks) for g in fam), f)
+        gets = [c for g in fam for c in g.calls() if c.matches(r"DashMap::<K, V, S>::get$")]
+        run.check(len(gets) == 1, nm.split("::")[-1] + "|reads-map", "%s reads the registry map once" % nm.split("::")[-1], "%s has %d map reads" % (nm, len(gets)), f.where())
+        # status reads anywhere in the lookup (closures included, helpers in the crate one level deep)
+        reads = []
+        for g in fam:
+            for c in g.calls():
+                if c.is_("get_status") or c.matches(r"ActorProperties::get_status$"):
+                    reads.append((g, c))
+        if not reads:
+            run.ok(nm.split("::")[-1] + "|status-independent", "%s does not consult the actor's status: it returns what the map holds" % nm.split("::")[-1], f.where())
+            continue
+        for g, c in reads:
+            # recognised: a closure whose return value is exactly one comparison of that status against a constant
+            sts = [t for t in status_tests(g) if any(r["k"] == "call" and r["call"].bb == c.bb for r in t["subject"])]
+            ret = g.origins([0, []])
+            admitted = None
+            if len(sts) == 1 and len(ret) == 1 and ret[0]["k"] == "call" and ret[0]["call"].bb == sts[0]["call"].bb and not g.switches():
+                admitted = [v for v in LIVE if status_sat(sts[0]["op"], sts[0]["const"], v)]
+            good = admitted is not None and admitted == LIVE
+            run.check(good, nm.split("::")[-1] + "|status-filter-admits-live", "the status filter admits every status a registered, not yet stopping actor can have",
+                      "%s filters its answer by the actor's status (%s): a holder that is %s owns the name (a competing spawn is refused) but the lookup denies it" % (
+                          nm.split("::")[-1], "admits %s" % admitted if admitted is not None else "unrecognised test", [v for v in LIVE if admitted is None or v not in admitted]), c.where())
+    run.anchor("lookup functions", n, 1)
+
+
+def r6(run, db):
+    """name ownership: the exit cleanup may release a name only for cells that registered it.  A constructor that stores a name
+    without registering it (remote proxies) must be distinguishable by the cleanup, otherwise the proxy's exit evicts a live
+    local actor that happens to carry the same name (F2)."""
+    ctors = []
+    for f in db.crate_fns("ractor"):
+        if f.kind not in ("fn", "method"):
+            continue
+        if any(True for _ in f.aggregates(adt="ActorCell")) and re.search(r"ActorCell::new\w*$", f.id):
+            ctors.append(f)
+    run.anchor("ActorCell constructors", len(ctors), 1)
+    nonreg = []
+    for f in ctors:
+        named = any(re.search(r"Option<(std::string::|alloc::string::)?String>", t) for t in f.raw.get("inputs", []))
+        reg = [c for c in f.calls() if c.matches(r"registry::register$")]
+        if named and not reg:
+            nonreg.append(f)
+        run.ok("ctor:%s:%s" % (f.id.split("::")[-1], "registers" if reg else "does-not-register"), "%s %s" % (f.id, "registers the name it stores" if reg else "stores a name without registering it"), f.where())
+    cl = run.need(db.fn("ractor::actor::actor_cell::ActorCell::set_status"), "ActorCell::set_status")
+    un = [c for c in cl.calls() if c.matches(r"registry::unregister$")]
+    run.anchor("cleanup unregister sites", len(un), 1, cl.where())
+    if not nonreg:
+        run.ok("all-named-ctors-register", "every constructor that stores a name registers it", cl.where())
+        return
+    unreg_fn = db.fn("ractor::registry::unregister")
+    by_identity = unreg_fn is not None and any(c.matches(r"DashMap::<K, V, S>::remove_if$") for g in db.family(unreg_fn.id) for c in g.calls())
+    for c in un:
+        loc = [x for x in cl.calls() if x.matches(r"ActorId::is_local$")]
+        guarded = any(true_edge(cl, x) and cl.edge_dominates(true_edge(cl, x), c.site) for x in loc)
+        run.check(guarded or by_identity, "cleanup|unregister-only-own-name",
+                  "the cleanup releases the name only for local cells (the only ones that register) / only the entry that is this very cell",
+                  "%s store a name without registering it, yet the exit cleanup calls registry::unregister(name) for every named cell: the exit of such a cell (a remote-actor proxy) removes the registry entry of a live local actor with the same name" % [g.id.split("::")[-1] for g in nonreg],
+                  c.where())
+    # and the non-registering constructors really only build non-local cells
+    for f in nonreg:
+        loc = [x for x in f.calls() if x.matches(r"ActorId::is_local$")]
+        aggs = [site for site, _ in f.aggregates(adt="ActorCell")]
+        good = bool(loc) and all(any(false_edge(f, x) and f.edge_dominates(false_edge(f, x), a) for x in loc) for a in aggs)
+        run.check(good, "ctor:%s|only-remote-ids" % f.id.split("::")[-1], "%s builds cells only for non-local ids" % f.id.split("::")[-1],
+                  "%s can build a cell with a local id that is never registered" % f.id, f.where())
+
+
 Q = ["dflt", "rc"]
 TH = ["dflt", "rc", "atr", "astd", "mon"]
-RULES = [{"id": "C10.R%d" % i, "fn": f, "quick": Q, "thorough": TH} for i, f in enumerate([r1, r2, r3, r4], 1)]
+RULES = [{"id": "C10.R%d" % i, "fn": f, "quick": Q, "thorough": TH} for i, f in enumerate([r1, r2, r3, r4, r5, r6], 1)]
